@@ -170,6 +170,12 @@ def build (kind, rng):
     if kind == "llc":
       l.dsap = rng.choice([0x42, 0xfe, 0x06]); l.ssap = l.dsap
       l.control = 3
+      if rng.random() < 0.5:
+        # I / S format: two control octets (any value of the second one,
+        # zero included)
+        l.control = rng.choice([0x00, 0x04, 0xfe, 0x02, 0x10]) | \
+            (rng.choice([0, 0, 1, 0x7f, 0xff, rint(rng, 8)]) << 8)
+        l.length = 4
       l.payload = payload[:100]
     else:
       l.dsap = 0xaa; l.ssap = 0xaa; l.control = 3; l.length = 8
@@ -453,7 +459,10 @@ def run_corpus (case, rep):
 
 
 CORPUS_SKIP = {"udp_nocsum", "udp_padded", "arp_reply", "icmp_unreach",
-               "icmp_time_exceeded", "ip_frag_first", "ip6_unreach",
+               "icmp_time_exceeded", "ip6_unreach",
+               # deliberately too short to be valid (they are in the corpus
+               # for C15):
+               "ip6_unreach_short", "ip6_too_big_short",
                "ip6_fragment"}
 
 
